@@ -187,6 +187,11 @@ def step (d : DState) (opLine : String) (impl : String) : DState × StepOut :=
   | ["flow", _, _, _] => (d, { model := "ok" })     -- flow fed to the hot-region schedulers (no model)
   | ["sflow", _, _, _] => (d, { model := "ok" })
   | "scatter" :: rid :: group :: rest => scatterStep d (natArg rid) (dash group) (rest.contains "dry=1") impl
+  | "scatteraged" :: rid :: group :: sid :: _ =>
+    -- the store has been silent for exactly the disconnect time when the (long-lived) scatterer decides
+    let d' := { d with desc := { d.desc with stores := d.desc.stores.map (fun s =>
+      if s.id == natArg sid then { s with downSecs := 20 } else s) } }
+    scatterStep d' (natArg rid) (dash group) false impl
   | "scatter2" :: ridX :: gX :: ridY :: gY :: _ =>
     -- two overlapping requests: X parked inside selectCandidates (after it built its filter list, before it
     -- read any counter) while Y runs completely = Y, then X; observation `<Y> ;; <X>`
